@@ -77,7 +77,7 @@ def run(tier, seed):
     cases = []
     g2 = model(w, 2, ["Emit"], "gen2", view=False)
     cases += g2.replays if tier == "thorough" else g2.replays[seed % 6::6]
-    sim = model(w, 6 if tier == "quick" else 12, ["Emit"], "sim", simulate=150 if tier == "quick" else 1500,
+    sim = model(w, 6 if tier == "quick" else 12, ["Emit"], "sim", simulate=150 if tier == "quick" else 1000,
                 depth=8 if tier == "quick" else 14, seed=seed, view=False)
     seen = set()
     for b in sim.replays:
@@ -100,7 +100,7 @@ def run(tier, seed):
     cases += wit2.replays[:: max(1, len(wit2.replays) // (25 if tier == "quick" else 200))]
     if tier == "thorough":
         g3 = model(w, 3, ["Emit"], "gen3", view=False)
-        cases += g3.replays[seed % 50::50]
+        cases += g3.replays[seed % 100::100]
     cp = os.path.join(w, "cases.ndjson")
     write_ndjson(cp, cases)
     out = os.path.join(w, "out.ndjson")
@@ -113,7 +113,7 @@ def run(tier, seed):
                for r in rows[len(rows) // 2: len(rows) // 2 + 2]]
     cov = {"states": mc.distinct, "transitions": mc.generated, "traces_validated_against_impl": stats["evaluations"],
            "samples": samples, "evaluations": stats["evaluations"], "distinct_nontrivial": len(stats["nontrivial"]),
-           "rule": "sequences = behaviours of RootCli.tla over 3 keys (RSA, Ed25519, ECDSA): all sequences of 2 commands (thorough: a fiftieth of all of 3) and simulated sequences of 6 (thorough: 12) commands among add-key (root / timestamp / all roles), remove-key (from root / everywhere), set-threshold, bump-version, set-version 2^32, expire, sign with every non-empty key set x --cross-sign (another root with root keys 1 and 2, signed by key 2) x --ignore-threshold; plus witness sequences that TLC finds on two variants of the model (threshold compared with the number of signature entries; cross-signing appending the other root's entries); each run through the tuftool binary built from the working tree; after every invocation the file is parsed by the harness, key ids recomputed and signatures verified independently; non-trivial = the sequence contains a sign",
+           "rule": "sequences = behaviours of RootCli.tla over 3 keys (RSA, Ed25519, ECDSA): all sequences of 2 commands (thorough: a hundredth of all of 3) and simulated sequences of 6 (thorough: 12) commands among add-key (root / timestamp / all roles), remove-key (from root / everywhere), set-threshold, bump-version, set-version 2^32, expire, sign with every non-empty key set x --cross-sign (another root with root keys 1 and 2, signed by key 2) x --ignore-threshold; plus witness sequences that TLC finds on two variants of the model (threshold compared with the number of signature entries; cross-signing appending the other root's entries); each run through the tuftool binary built from the working tree; after every invocation the file is parsed by the harness, key ids recomputed and signatures verified independently; non-trivial = the sequence contains a sign",
            "exhaustive": False}
     return v.finish("model_checking", cov, ["TLC checks the command semantics (all sequences up to 6-7 commands with the history hidden); replayed sequences are a sample beyond length 2; the file is judged by the harness's own parser, canonical JSON, digest and signature verification"])
 
